@@ -65,6 +65,22 @@ static int gen_c06(cs_t *cs, void *k, const runcfg_t *cfg) {
 static int gen_c10(cs_t *cs, void *k, const runcfg_t *cfg) {
     gcase_t *c = k; int ok = gc_gen(cs, c, cfg, 10); c->guard = G_NA;
     if (ok) force_valid(c, &g_rows[c->row]);
+    if (ok && cfg->phase) {
+        /* one case in six of the two-string queries: the second operand aliases the first (strstr_s(s, n, s + k, ...), comparing a
+         * string with its own tail): legal, nothing is written; the answer is the standard function's on the same pointers */
+        const row_t *r = &g_rows[c->row];
+        if ((r->fl & F_SRC) && (r->fl & F_SRCSTR) && (r->fl & F_DIN) && r->fam == FAM_QUERY && r->su == r->w && r->du == r->w && c->dcontent == DC_STR && !c->ex_on &&
+            c->dlen * (size_t)r->w < c->dtrue && cs_range(cs, 0, 5) == 0) {
+            size_t kk = (size_t)cs_range(cs, 0, (long)c->dlen), cap;
+            c->ov_on = 2; c->ov_off = (long)kk;
+            c->strue = c->dtrue - kk * (size_t)r->w;
+            c->scontent = SC_STR;
+            c->slen_true = c->dlen - kk;
+            cap = c->strue / (size_t)r->su;
+            if (r->fl & F_SLEN) { if (c->slen > cap) c->slen = cap; if (c->slen <= c->slen_true) c->slen = c->slen_true + 1 <= cap ? c->slen_true + 1 : cap; }
+            if (c->sbos && (r->fl & F_SLEN) && c->slen * (size_t)r->su > c->strue) c->sbos = 0;
+        }
+    }
     return ok;
 }
 
@@ -156,6 +172,7 @@ static void exec_c10(const void *k, res_t *r, const runcfg_t *cfg) {
     if (X.faulted) { res_label(r, "foreign-fault"); if (X.sig != SIGSEGV) r->fragile = 1; return; }
     g_model_noslack = cfg->libcfg && strstr(cfg->libcfg, "noslack") != NULL;
     ref_model(row, c, X.dest_before, X.src_before, &M);
+    if (GC_QALIAS(c)) res_label(r, "aliased-second-operand");
     if (!M.known) { res_label(r, "model:declines"); return; }
     failed = mcall_failed(row, &X);
     code = mcall_code(row, &X);
